@@ -294,6 +294,36 @@ def r_tabletype(ctx):
         if ok and not okd:
             ok, msg = False, "the table of multipliers does not reuse the labels of the table of constraints / is not stored under the same key"
         if ok:
+            # the data of the new table are the converted cells, untransformed: every definition of the name handed to DataFrame is the list of
+            # converted rows, or a copy / array view of it
+            data = df[0].value.args[0] if df[0].value.args else get_arg(df[0].value, 0, "data")
+            seen_names = set()
+
+            def plain_data(e, depth=0):
+                if depth > 5:
+                    return "too deep"
+                if isinstance(e, ast.Name):
+                    if e.id in seen_names:
+                        return None
+                    seen_names.add(e.id)
+                    defs0 = [s0 for s0 in flow.stmts_of_block(outer[0]) if isinstance(s0, (ast.Assign, ast.AugAssign))
+                             and any(dotted(t0) == e.id for t0 in (s0.targets if isinstance(s0, ast.Assign) else [s0.target]))]
+                    for d0 in defs0:
+                        if isinstance(d0, ast.AugAssign):
+                            return "`%s`" % norm_stmt(d0)[:70]
+                        r0 = plain_data(d0.value, depth + 1)
+                        if r0:
+                            return r0
+                    return None
+                if isinstance(e, ast.Call) and call_name(e) in ("array", "asarray", "list", "copy") and e.args:
+                    return plain_data(e.args[0], depth + 1)
+                if isinstance(e, (ast.List, ast.ListComp)) or (isinstance(e, ast.Call) and call_name(e) == "list" and not e.args):
+                    return None
+                return "`%s`" % src(e)[:70]
+            why = plain_data(data) if data is not None else "no data argument"
+            if why:
+                ok, msg = False, "the table of multipliers is transformed after the cells were converted (%s): an entry (i, j) is no longer the multiplier of the constraint of the pair (i, j)" % why
+        if ok:
             res = dotted(st[0].targets[0].value)
             rets = [r for r in ast.walk(fn) if isinstance(r, ast.Return)]
             if not rets or any(r.value is None or dotted(r.value) != res for r in rets) or flow.conditions_guarding(outer[0]):
